@@ -201,6 +201,42 @@ static void dot_case(int two_cols, int avx, uint64_t nrows, int fam, unsigned re
   case_end(nrows >= 1);
 }
 
+// reim4 element operations: dest = u + v (exact IEEE sum per component) and dest = u * v (complex product)
+static void element_case(int fam, unsigned rep) {
+  char key[96];
+  snprintf(key, sizeof key, "reim4_add/reim4_mul|%s", vfam_name[fam]);
+  if (!case_begin(key, "rep=%u", rep)) return;
+  rng_t* r = crng();
+  gbuf_t gu, gv, gd;
+  double* u = gb_alloc(&gu, 64, 8, 8 * (rep % 8), 4096);
+  double* v = gb_alloc(&gv, 64, 8, 8 * ((rep + 3) % 8), 4096);
+  double* d = gb_alloc(&gd, 64, 8, 8 * ((rep + 5) % 8), 4096);
+  fill(r, fam, u, 8);
+  fill(r, fam, v, 8);
+  gb_prefill(&gd, (int)rep, 0);
+  reim4_add(d, u, v);
+  for (int k = 0; k < 8; k++) {
+    double want = u[k] + v[k];
+    if (memcmp(&want, &d[k], 8) && !(want == 0 && d[k] == 0)) viol("oracle", "reim4_add component %d: %.17g + %.17g gave %.17g", k, u[k], v[k], d[k]);
+  }
+  gb_prefill(&gd, (int)rep + 1, 0);
+  reim4_mul(d, u, v);
+  for (int k = 0; k < 4; k++) {
+    long double a = u[k], b = u[k + 4], c = v[k], dd = v[k + 4];
+    long double sr = a * c - b * dd, si = a * dd + b * c;
+    long double tr = 4 * U53 * (fabsl(a * c) + fabsl(b * dd)), ti = 4 * U53 * (fabsl(a * dd) + fabsl(b * c));
+    if (!(fabsl(d[k] - sr) <= tr) || !(fabsl(d[k + 4] - si) <= ti)) viol("oracle", "reim4_mul lane %d: got (%.17g,%.17g) exact (%.17Lg,%.17Lg)", k, d[k], d[k + 4], sr, si);
+  }
+  long wh;
+  if (gb_check(&gu, &wh) || gb_check(&gv, &wh) || gb_check(&gd, &wh)) viol("canary", "reim4 element operation accessed outside a buffer (%ld)", wh);
+  gb_free(&gu);
+  gb_free(&gv);
+  gb_free(&gd);
+  cnt("reim4_element_operations", 2);
+  sample("reim4_add exact per component, reim4_mul within 4u of the complex product");
+  case_end(1);
+}
+
 // ---------------------------------------------------------------- pointwise mul / addmul on reim, reim4, cplx vectors
 enum { LY_REIM, LY_REIM4, LY_CPLX };
 static const char* ly_name[] = {"reim", "reim4", "cplx"};
@@ -470,6 +506,8 @@ void run_C17(void) {
     for (int ly = 0; ly < 3; ly += 2)
       for (int addmul = 0; addmul <= 1; addmul++)
         for (int v = 0; v < 5; v++) fftvec_case(ly, addmul, v, m, V_RANDOM, 0, 0);
+  for (int fam = 0; fam < N_VFAM; fam++)
+    for (unsigned rep = 0; rep < (th ? 2000u : 100u); rep++) element_case(fam, rep);
   // dot products: every length 0..64, 128, 1000
   for (int two = 0; two <= 1; two++)
     for (int avx = 0; avx <= 1; avx++)
